@@ -277,6 +277,14 @@ def exotic_const(rng, text: str) -> str:
     return text[:m.start()] + rng.choice(EXOTIC_SYMBOLS) + text[m.end():]
 
 
+def exotic_sweep(text: str, symbols=('"s"', "c", "#sup", "f(1)", "-1", "0")):
+    """every single-position substitution of an integer literal by a symbol of another kind"""
+    for m in re.finditer(r"(?<![A-Za-z_0-9@./\"])\d+(?![A-Za-z_0-9.(\"])", text):
+        for sym in symbols:
+            if sym != m.group(0):
+                yield text[:m.start()] + sym + text[m.end():]
+
+
 def mutate(rng, text: str) -> str:
     r = rng.random()
     if r < 0.07:
